@@ -3,6 +3,7 @@ package main
 import (
 	"encoding/json"
 	"fmt"
+	"math/rand"
 
 	"vharness/internal/abs"
 	"vharness/internal/st"
@@ -12,6 +13,8 @@ func init() { drivers["static"] = staticDriver }
 
 func staticDriver(args []string) (*Summary, error) {
 	fl := newFlags("static")
+	size := fl.fs.Int("size", 6, "scale of the generated feeds (rows per file grow with it)")
+	hostile := fl.fs.Float64("hostile", 0.08, "fraction of damaged rows in every second generated feed")
 	fl.fs.Parse(args)
 	w, err := abs.NewWriter(*fl.out)
 	if err != nil {
@@ -25,13 +28,7 @@ func staticDriver(args []string) (*Summary, error) {
 	s := &Summary{Counters: map[string]int{}}
 	n := 0
 	distinct := map[string]bool{}
-	err = abs.ReadLines(*fl.in, func(line []byte) error {
-		var c st.Case
-		if err := json.Unmarshal(line, &c); err != nil {
-			return fmt.Errorf("bad case: %v", err)
-		}
-		n++
-		id := fmt.Sprintf("tlc-%d", n)
+	handle := func(id string, c st.Case) error {
 		inputs.Write(map[string]any{"case": id, "input": c})
 		crashes, err := st.RunCase(id, c, *fl.seed+int64(n), w)
 		if err != nil {
@@ -46,13 +43,35 @@ func staticDriver(args []string) (*Summary, error) {
 			distinct[string(c.Feed)] = true
 			s.Counters["distinct_feeds"]++
 		}
-		if len(s.Samples) < 2 && n%211 == 3 {
+		if len(s.Samples) < 2 && n%211 == 3 && len(c.Feed) < 20000 {
 			s.Samples = append(s.Samples, map[string]any{"case": id, "input": c})
 		}
 		return nil
-	})
-	if err != nil {
-		return nil, err
+	}
+	if *fl.in != "" {
+		err = abs.ReadLines(*fl.in, func(line []byte) error {
+			var c st.Case
+			if err := json.Unmarshal(line, &c); err != nil {
+				return fmt.Errorf("bad case: %v", err)
+			}
+			n++
+			return handle(fmt.Sprintf("tlc-%d", n), c)
+		})
+		if err != nil {
+			return nil, err
+		}
+	}
+	r := rand.New(rand.NewSource(*fl.seed))
+	for i := 0; i < *fl.gen; i++ {
+		h := 0.0
+		if i%2 == 1 {
+			h = *hostile
+		}
+		n++
+		if err := handle(fmt.Sprintf("gen-%d-%d", *fl.seed, i), st.GenCase(r, *size, h)); err != nil {
+			return nil, err
+		}
+		s.Counters["generated_large_feeds"]++
 	}
 	s.Records = w.N
 	return s, w.Close()
